@@ -835,6 +835,8 @@ fn sweep32(t: &mut Toks) -> PResult<String> {
     let hi = t.u64()?;
     let mut bad: u64 = 0;
     let mut first = String::new();
+    let mut quad = String::with_capacity(16);
+    let mut shown = String::with_capacity(16);
     let mut fail = |p: u32, why: &str, bad: &mut u64| {
         if *bad == 0 {
             first = format!("{:08x}:{}", p, why);
@@ -873,9 +875,12 @@ fn sweep32(t: &mut Toks) -> PResult<String> {
             "ip4" => match IPv4::decode_from(&mut cur) {
                 Ok(v) => {
                     // no accessor: the dotted quad is read off the Display text, else off the Debug text
-                    let quad = format!("{}.{}.{}.{}", b[0], b[1], b[2], b[3]);
-                    let shown = format!("{}", v);
-                    (shown == quad || (shown.parse::<std::net::Ipv4Addr>().is_err() && format!("{:?}", v).contains(&quad))) && v.encode_to(&mut out).is_ok()
+                    use std::fmt::Write as _;
+                    quad.clear();
+                    shown.clear();
+                    let _ = write!(quad, "{}.{}.{}.{}", b[0], b[1], b[2], b[3]);
+                    let _ = write!(shown, "{}", v);
+                    (shown == quad || (shown.parse::<std::net::Ipv4Addr>().is_err() && format!("{:?}", v).contains(quad.as_str()))) && v.encode_to(&mut out).is_ok()
                 }
                 Err(_) => false,
             },
